@@ -39,6 +39,9 @@ type tunCfg struct {
 	Director    int  // epoch-level faults injected
 	StaleAt     int  // >0: after this many acknowledged requests the gateway leaves stale acknowledgements on offer and replaces the connection
 	Busmon      bool // bus monitor tunnel: inbound telegrams are L_Busmon.ind
+	Defaults    bool // the timing options are left at zero: the library's defaults apply (R=500ms, T=H=10s)
+	SlowWrite   int  // permille of the client's writes that stall inside the call (counted as slack)
+	SlowMax     time.Duration
 	Sticky      int
 	PCT         int
 	Window      int  // gateway's outbound window (1 = stop-and-wait)
@@ -153,7 +156,11 @@ func drawTunCfg(e *Env) tunCfg {
 		c.LateMax = c.R / 4
 	}
 	c.Window = 1
-	if (p == "C05" || p == "C17" || p == "C04" || p == "C10") && e.Choose("cfg.stall", 4) == 0 {
+	stallOdds := 4
+	if p == "C03" || p == "C09" {
+		stallOdds = 6
+	}
+	if (p == "C05" || p == "C17" || p == "C04" || p == "C10" || p == "C03" || p == "C09") && e.Choose("cfg.stall", stallOdds) == 0 {
 		c.Stall = []int{3, 10, 30}[e.Choose("cfg.stallp", 3)]
 		c.StallMax = e.PickDur("cfg.stallmax", time.Millisecond, 10*time.Millisecond)
 	}
@@ -176,10 +183,17 @@ func drawTunCfg(e *Env) tunCfg {
 			if shape >= 7 {
 				c.Director = 1 + e.Choose("cfg.dir03", 3)
 			}
+			if shape == 6 || shape == 8 {
+				c.WriteErr = []int{0, 0, 50, 200}[e.Choose("cfg.werr03", 4)] // a request or a repetition that cannot be written
+			}
 		}
 		c.TCP = shape == 1 && e.Choose("cfg.tcp", 2) == 1
+		if (shape == 3 || shape == 4) && e.Choose("cfg.tshort", 3) == 0 {
+			c.T = c.R / 2 // a response timeout below the resend interval: no repetition, Send gives up after T
+			c.H = 4 * c.R
+		}
 	case "C04", "C17":
-		c.Senders = e.Choose("cfg.senders2", 2)
+		c.Senders = []int{0, 1, 1, 3}[e.Choose("cfg.senders2", 4)] // (application traffic shares the socket with the acknowledgements)
 		c.Inbound = 2 + e.Choose("cfg.inbound64", 63)
 		c.Window = []int{1, 2, 4, 8, 64}[e.Choose("cfg.window", 5)]
 		if p == "C04" && shape >= 3 && shape != 9 {
@@ -232,6 +246,18 @@ func drawTunCfg(e *Env) tunCfg {
 			break
 		}
 		c.Director = 1 + e.Choose("cfg.dir5", 5)
+		if shape >= 7 {
+			c.WriteErr = []int{0, 30, 100}[e.Choose("cfg.werr09", 3)] // heartbeat, connect and disconnect frames that cannot be written
+		}
+		if e.Choose("cfg.slow09", 5) == 0 {
+			// the receive loop is held up inside a write while something else wants its attention
+			c.SlowWrite = []int{100, 400}[e.Choose("cfg.slowp", 2)]
+			c.SlowMax = e.PickDur("cfg.slowmax", c.R/8, c.R/2, c.R)
+		}
+		if e.Choose("cfg.starve09", 5) == 0 {
+			c.Starve = []int{100, 300}[e.Choose("cfg.starvep", 2)]
+			c.StarveMax = e.PickDur("cfg.starvemax", time.Millisecond, 20*time.Millisecond)
+		}
 		c.Senders = e.Choose("cfg.senders3", 3)
 		c.SendsEach = 1 + e.Choose("cfg.sends12", 12)
 		c.Think = true
@@ -241,6 +267,11 @@ func drawTunCfg(e *Env) tunCfg {
 	case "C10":
 		c.Closers = 1 + e.Choose("cfg.closers", 4)
 		c.CloseEarly = true
+		if e.Choose("cfg.starve10", 4) == 0 {
+			// goroutines that start late: Close meets workers that have not run their first line yet
+			c.Starve = []int{100, 300, 700}[e.Choose("cfg.starvep", 3)]
+			c.StarveMax = e.PickDur("cfg.starvemax", time.Millisecond, 20*time.Millisecond, 500*time.Millisecond)
+		}
 		if shape >= 2 {
 			c.WriteErr = []int{0, 0, 0, 50, 300}[e.Choose("cfg.werr", 5)]
 			c.ReadErr = e.Choose("cfg.rerr", 4) == 0
@@ -258,11 +289,17 @@ func drawTunCfg(e *Env) tunCfg {
 		// the connect request's endpoints: every combination of transport and SendLocalAddress, a few reconnects
 		c.TCP = e.Choose("cfg.tcp16", 2) == 1
 		c.Director = e.Choose("cfg.dir16", 3)
+		if e.Choose("cfg.defaults16", 4) == 0 {
+			// zero-valued timing options: whatever the defaulting does, the other options must survive it
+			c.Defaults = true
+			c.R, c.T, c.H = 500*time.Millisecond, 10*time.Second, 10*time.Second
+			c.Senders, c.SendsEach, c.Inbound, c.Director = 1, 2, 2, 0
+		}
 	}
 	if (p == "C04" || p == "C05" || p == "C17") && e.Choose("cfg.busmon", 5) == 0 {
 		c.Busmon = true
 	}
-	if total := c.Senders * c.SendsEach; total > 1 && !c.FaultFree && !c.ForeignOnly && shape != 9 && (p == "C03" || p == "C05" || p == "C09" || p == "C10") && e.Choose("cfg.stale", 4) == 0 {
+	if total := c.Senders * c.SendsEach; total > 1 && !c.FaultFree && !c.ForeignOnly && shape != 9 && (p == "C03" || p == "C09" || p == "C10") && e.Choose("cfg.stale", 4) == 0 { // (not C05: its gateway never ends a connection on its own)
 		c.StaleAt = 1 + e.Choose("cfg.staleat", min(total-1, 12))
 	}
 	c.Up.LateExtra, c.Down.LateExtra = 3*c.R, 3*c.R
@@ -277,10 +314,10 @@ func drawTunCfg(e *Env) tunCfg {
 }
 
 func (c tunCfg) String() string {
-	return fmt.Sprintf("tcp=%v R=%v T=%v H=%v local=%v senders=%dx%d think=%v inbound=%d/%v reader=%s closers=%d early=%v up={drop=%d dup=%d late=%d dmax=%v} down={drop=%d dup=%d late=%d dmax=%v} tlate=%d adv=%d dir=%d foreignonly=%v sticky=%d pct=%d window=%d starve=%d/%v reusechan=%v werr=%d rerr=%v stall=%d/%v stale=%d busmon=%v",
+	return fmt.Sprintf("tcp=%v R=%v T=%v H=%v local=%v senders=%dx%d think=%v inbound=%d/%v reader=%s closers=%d early=%v up={drop=%d dup=%d late=%d dmax=%v} down={drop=%d dup=%d late=%d dmax=%v} tlate=%d adv=%d dir=%d foreignonly=%v sticky=%d pct=%d window=%d starve=%d/%v reusechan=%v werr=%d rerr=%v stall=%d/%v stale=%d busmon=%v slowwrite=%d/%v",
 		c.TCP, c.R, c.T, c.H, c.LocalAddr, c.Senders, c.SendsEach, c.Think, c.Inbound, c.InboundGap, c.Reader, c.Closers, c.CloseEarly,
 		c.Up.DropPermille, c.Up.DupPermille, c.Up.LatePermille, c.Up.DelayMax, c.Down.DropPermille, c.Down.DupPermille, c.Down.LatePermille, c.Down.DelayMax,
-		c.TimerLate, c.Adversary, c.Director, c.ForeignOnly, c.Sticky, c.PCT, c.Window, c.Starve, c.StarveMax, c.ReuseChan, c.WriteErr, c.ReadErr, c.Stall, c.StallMax, c.StaleAt, c.Busmon)
+		c.TimerLate, c.Adversary, c.Director, c.ForeignOnly, c.Sticky, c.PCT, c.Window, c.Starve, c.StarveMax, c.ReuseChan, c.WriteErr, c.ReadErr, c.Stall, c.StallMax, c.StaleAt, c.Busmon, c.SlowWrite, c.SlowMax)
 }
 
 func idMessage(id int) cemi.Message {
@@ -412,21 +449,38 @@ func runTunnel(e *Env) {
 		layer = knxnet.TunnelLayerBusmon
 	}
 	r.gw.Busmon = c.Busmon
-	tun, err := knx.NewTunnel(fmt.Sprintf("%s:%d", gwIP, gwPort), layer, knx.TunnelConfig{
-		ResendInterval: c.R, HeartbeatInterval: c.H, ResponseTimeout: c.T, SendLocalAddress: c.LocalAddr,
-	})
+	if (e.Spec.Prop == "C04" || e.Spec.Prop == "C05" || e.Spec.Prop == "C17") && !c.Busmon && e.Choose("cfg.biginfo", 4) == 0 {
+		lens := map[int]int{}
+		r.gw.InfoLen = func(id int) int {
+			if n, ok := lens[id]; ok {
+				return n // (repetitions of a telegram are identical)
+			}
+			n := []int{0, 0, 1, 100, 254, 255}[e.Choose("wl.infolen", 6)]
+			lens[id] = n
+			if n > 0 {
+				e.Fault("telegram-with-additional-info")
+			}
+			return n
+		}
+	}
+	tcfg := knx.TunnelConfig{ResendInterval: c.R, HeartbeatInterval: c.H, ResponseTimeout: c.T, SendLocalAddress: c.LocalAddr}
+	if c.Defaults {
+		tcfg = knx.TunnelConfig{SendLocalAddress: c.LocalAddr}
+	}
+	tun, err := knx.NewTunnel(fmt.Sprintf("%s:%d", gwIP, gwPort), layer, tcfg)
 	r.h.Created = e.Stamp()
 	if err != nil {
 		r.h.NewErr = err.Error()
 		e.Probe("newtunnel-failed")
 		// With a lossy link the initial connect may legitimately fail; nothing else to observe.
-		checkNoLibTasksLeft(e, "C10", c.T+c.R)
+		checkNoLibTasksLeft(e, "C10", c.T+c.R+c.StarveMax)
 		return
 	}
 	r.tun = tun
-	if c.WriteErr > 0 {
+	if c.WriteErr > 0 || c.SlowWrite > 0 {
 		up := c.Up
 		up.WriteErrPermille = c.WriteErr
+		up.SlowWritePermille, up.SlowWriteMax, up.SlowWriteSlack = c.SlowWrite, c.SlowMax, true
 		e.F.SetLink(clientIP, gwIP, up)
 	}
 	r.startWorkload()
@@ -777,7 +831,7 @@ func (r *tunRun) finish() {
 	// acknowledgement relays and the gateway's retries time to finish.
 	r.h.DrainAt = e.Stamp()
 	r.drain = true
-	s.SleepFor(2*c.T + 2*c.R + 3*time.Second)
+	s.SleepFor(2*c.T + 2*c.R + 3*time.Second + 2*c.StarveMax) // (a goroutine that starts late is part of what must settle)
 	r.h.Settled = e.Stamp()
 	// Phase 3: close (unless a closer did) and observe the aftermath. Library calls run in their
 	// own tasks with a deadline: a call that hangs is a finding, not the end of the harness.
@@ -806,7 +860,7 @@ func (r *tunRun) finish() {
 			e.Call("late-send", long, func() { r.doSend(lateSender) })
 		}
 	}
-	s.SleepFor(c.T + c.R + time.Millisecond)
+	s.SleepFor(c.T + c.R + time.Millisecond + c.StarveMax)
 	closeChan("stop", r.stop)
 	simrt.Yield("end")
 }
